@@ -255,4 +255,19 @@ def loopSteps (srv : Srv) (stop : Bool) : List Item → Bool → List PAct
 def steps (srv : Srv) (req : Req) : List PAct :=
   if Accepted srv req then loopSteps srv (req.opt == optStop) req.items false else [.clear]
 
+
+/-- item `j` of the loop is skipped: the loop was entered stopped, or `stop` is on and an earlier
+    item fails. -/
+def stoppedAt (srv : Srv) (stop stopped : Bool) (items : List Item) (j : Nat) : Bool :=
+  stopped || (stop && (items.take j).any (fails srv))
+
+/-- the values read on behalf of item `c`. -/
+def obsOfItem (c : Nat) (obs : List (Nat × Val)) : List Val :=
+  (obs.filter (fun e => e.1 == c)).map (·.2)
+
+/-- the content of the placeholder when item `j` is reached: the last value written by the
+    accesses of the items before it (`""` when there is none). -/
+def phBefore (srv : Srv) (req : Req) (j : Nat) : Val :=
+  lastWrite 0 (loopSteps srv (req.opt == optStop) (req.items.take j) false)
+
 end Kmip.Batch
